@@ -40,6 +40,10 @@ func regAlphabet() []rop {
 		{kind: "reg", h: 0, i: 2, k: 2, name: "reg(header 0, inner 2)"},
 		{kind: "reg", h: 1, i: 2, k: 1, name: "reg(header 1, inner 2)"},
 		{kind: "reg", h: 2, i: 1, k: 2, name: "reg(header 2, inner 1)"},
+		// the "no encryption" variant: all-zero key, metadata in the clear
+		{kind: "reg", h: 2, i: 2, k: 0, name: "reg(2,2,zero key)"},
+		{kind: "reg", h: 2, i: 1, k: 0, name: "reg(header 2, inner 1, zero key)"},
+		{kind: "reg", h: big, i: 1, k: 0, name: "reg(header 80000001, inner 1, zero key)"},
 		{kind: "reconnect", h: 1, name: "reconnect(1)"},
 		{kind: "reconnect", h: 2, name: "reconnect(2)"},
 		{kind: "checkin", h: 1, i: 1, name: "checkin-callback(1 carries 1)"},
@@ -91,7 +95,7 @@ func (w *regWorld) apply(o rop) (string, string) {
 		switch {
 		case o.h != 0 && o.h == o.i && !exists:
 			// a proper registration: acknowledged with the id under the session key
-			want := demonwire.CTR(le(o.h), seam.Key(o.k), seam.IV(o.k))
+			want := ackOf(o.h, o.k)
 			if res.Status != 200 || !bytes.Equal(res.Body, want) {
 				return "register/not-acknowledged", fmt.Sprintf("registration of %08x: status %d body %x, want 200 and the id encrypted under the session key", o.h, res.Status, res.Body)
 			}
@@ -100,7 +104,7 @@ func (w *regWorld) apply(o rop) (string, string) {
 			// DEMON_INIT from an existing id is a reconnect: answered with the id under the
 			// EXISTING session key; nothing about the session changes
 			m := w.model[o.h]
-			want := demonwire.CTR(le(o.h), seam.Key(m.k), seam.IV(m.k))
+			want := ackOf(o.h, m.k)
 			if res.Status != 200 || !bytes.Equal(res.Body, want) {
 				return "reconnect/reply", fmt.Sprintf("DEMON_INIT from existing %08x: status %d body %x", o.h, res.Status, res.Body)
 			}
@@ -116,7 +120,7 @@ func (w *regWorld) apply(o rop) (string, string) {
 			return "panic/" + res.Stack, fmt.Sprint(res.Panic)
 		}
 		if m, ok := w.model[o.h]; ok {
-			want := demonwire.CTR(le(o.h), seam.Key(m.k), seam.IV(m.k))
+			want := ackOf(o.h, m.k)
 			if res.Status != 200 || !bytes.Equal(res.Body, want) {
 				return "reconnect/reply", fmt.Sprintf("reconnect of %08x: status %d body %x", o.h, res.Status, res.Body)
 			}
@@ -151,6 +155,15 @@ func (w *regWorld) apply(o rop) (string, string) {
 			Body: packager.Body{SubEvent: packager.Type.Session.MarkAsDead, Info: map[string]any{"AgentID": fmt.Sprintf("%08x", o.h), "Marked": "Dead"}}})
 	}
 	return w.invariants()
+}
+
+// ackOf: the acknowledgement of a registration is the agent id, encrypted under the session
+// key - in the clear for the all-zero "no encryption" key.
+func ackOf(h uint32, k byte) []byte {
+	if k == 0 {
+		return le(h)
+	}
+	return demonwire.CTR(le(h), seam.Key(k), seam.IV(k))
 }
 
 func zeroOr(h uint32) string {
